@@ -526,6 +526,8 @@ H_Modify20(st, req, p) ==
     ELSE LET n == p.new.name  o == st.objs[l.u] IN
     IF ~HasRule(n) THEN Fail(st, "ItemNotFound")
     ELSE IF ~AttrModifiable(n) THEN Fail(st, "PermissionDenied")
+    \* the current attribute must be an instance of the attribute that is modified
+    ELSE IF p.hascur /\ p.cur.name # n THEN Fail(st, "AttributeNotFound")
     ELSE IF AttrMulti(n)
          THEN IF ~p.hascur THEN Fail(st, "AttributeInstanceNotFound")
               ELSE IF n \notin ListAttrs THEN Fail(st, "AttributeNotFound")
